@@ -4,17 +4,25 @@ _REQ = [("header", "0..48"), ("uid_hdr", "48..52"), ("uid_body", "52..84"), ("co
 _RESP = [("header", "0..48"), ("uid_hdr", "48..52"), ("uid_body", "52..84"), ("auth_words", "84..92"), ("auth_body", "92..144"), ("trailer", "144..148")]
 PROP = dict(
     functions=[
-        "ntp_proto::packet::NtpPacket::{nts_poll_message, serialize<ModelCipher>, deserialize<ModelCipher>}",
-        "ntp_proto::packet::extension_fields::{ExtensionFieldData::{serialize,deserialize}, ExtensionField::encode_encrypted, RawEncryptedField::{from_message_bytes,decrypt}}",
+        "ntp_proto::packet::NtpPacket::deserialize<{ProbeCipher, ModelCipher}> (v4 path), NtpPacket::{nts_poll_message, serialize<ModelCipher>} (c25_*_real_serializer)",
+        "ntp_proto::packet::extension_fields::{ExtensionFieldData::{deserialize,serialize}, ExtensionField::encode_encrypted, RawEncryptedField::{from_message_bytes,decrypt}}",
     ],
-    bounds="NTPv4. Request = NtpPacket::nts_poll_message(16-byte cookie, 1 cookie) with arbitrary unique id / transmit timestamp / cookie bytes; response = arbitrary v4 server header + 32-byte unique id (authenticated) + 16-byte new cookie (encrypted); both encoded by the real serializer with the ideal-AEAD ModelCipher (arbitrary nonce and tag), followed by 4 arbitrary trailer bytes (148 bytes). Tampering: XOR of an arbitrary non-zero mask (all 255, i.e. every single-bit and single-byte change) into the byte at an arbitrary position, one harness per region.",
-    outside="real AES-SIV (idealised, DESIGN 2.6); NTPv5 NTS packets; requests with placeholders; server-side cookie recovery through KeySet (the returned cookie is observed to be None with client keys; KeySet::get/decode_cookie are exercised by C23/C26); changes of more than one byte",
+    bounds="NTPv4. Request image = header (byte 0 = 0x23, the other 47 bytes arbitrary) + 32-byte unique id field + 16-byte cookie field + authenticator written by the real ExtensionField::encode_encrypted with the ideal-AEAD ModelCipher (arbitrary nonce and tag) + 4 arbitrary trailer bytes (148 bytes); response image = header (byte 0 = 0xE4) + unique id field + authenticator over one 16-byte new cookie + trailer. c25_*_real_serializer: NtpPacket::serialize of nts_poll_message(16-byte cookie, 1) / of the corresponding response packet produces exactly these images. Tampering: XOR of an arbitrary non-zero mask (all 255: every single-bit and single-byte change) into the byte at an arbitrary position, one harness per region. Decomposition (the decoder depends on the cipher only through decrypt's return value): tamper harnesses decode with a recording, always-refusing cipher and decide outside the decoder whether the ideal AEAD would have accepted the recorded (associated data, nonce, ciphertext) triple; region A: never the logged triple and nothing authentic is reported; region C: exactly the logged triple; the accepting behaviour (lists == original content) is decided with the accepting ModelCipher by c25_untampered and c25_*_trailer_accept.",
+    outside="real AES-SIV (idealised, DESIGN 2.6); NTPv5 NTS packets; requests with placeholders; server-side cookie recovery through KeySet (with client keys the returned cookie is observed to be None; KeySet::get/decode_cookie are exercised by C23/C26); changes of more than one byte; region B (the authenticator's own four words) with the accepting cipher: shown is that the AEAD is asked either about the logged triple or about something it refuses, and that a refusal reports nothing authentic",
     assumptions=["ideal AEAD: decrypt succeeds iff key, associated data, nonce and ciphertext||tag are exactly what encrypt recorded"],
     stub_notes=[
-        "common::ModelCipher implements the public Cipher trait (no #[kani::stub]); ghost log of the one encryption per key",
-        "rand::thread_rng via the standard ghost tape (symbolic): unique id and transmit timestamp of the request are arbitrary",
-        "hooks: packet_from_parts (response), packet_authenticated/encrypted/untrusted getters",
+        "common::ModelCipher / common::ProbeCipher implement the public Cipher trait (no #[kani::stub]); ghost log of the one encryption per key, ghost record of up to two decrypt calls",
+        "rand::thread_rng via the standard ghost tape (symbolic) in c25_req_real_serializer: unique id and transmit timestamp of the request are arbitrary",
+        "hooks: encode_encrypted_hook (thin wrapper), packet_from_parts, packet_authenticated/encrypted/untrusted getters, request_identifier_parts",
+        "core::str::from_utf8 / is_ascii ASCII-only models, Cargo.toml cbmc-args (see C23)",
     ],
-    harnesses=[H(NP, "c25", "c25_req_" + n, "request, tampered byte in %s" % r, tier=("quick" if n in ("uid_body", "auth_body", "trailer") else "thorough"), timeout=400) for n, r in _REQ]
-    + [H(NP, "c25", "c25_resp_" + n, "response, tampered byte in %s" % r, tier=("quick" if n in ("auth_body",) else "thorough"), timeout=400) for n, r in _RESP],
+    harnesses=[
+        H(NP, "c25", "c25_untampered", "valid request/response accepted with exactly the expected authenticated/encrypted content (accepting cipher)", tier="thorough"),
+        H(NP, "c25", "c25_req_real_serializer", "NtpPacket::serialize(nts_poll_message) == assembled request image", tier="thorough"),
+        H(NP, "c25", "c25_resp_real_serializer", "NtpPacket::serialize(response) == assembled response image", tier="thorough"),
+        H(NP, "c25", "c25_req_trailer_accept", "request, trailer byte changed, accepting cipher: same authentic content", tier="thorough"),
+        H(NP, "c25", "c25_resp_trailer_accept", "response, trailer byte changed, accepting cipher: same authentic content", tier="thorough"),
+    ]
+    + [H(NP, "c25", "c25_req_" + n, "request, tampered byte in %s" % r, tier=("quick" if n in ("uid_body", "auth_body") else "thorough"), timeout=600) for n, r in _REQ]
+    + [H(NP, "c25", "c25_resp_" + n, "response, tampered byte in %s" % r, tier=("quick" if n in ("auth_body",) else "thorough"), timeout=600) for n, r in _RESP],
 )
